@@ -25,7 +25,7 @@ NATFLAGS = ["-std=c++17", "-O1", "-g", "-fno-access-control", "-fsanitize=addres
             "-fno-sanitize=nonnull-attribute,vptr,alignment", "-fno-sanitize-recover=all", "-fno-omit-frame-pointer",
             "-I" + SRC, "-I" + HARNESS, "-w"]
 # message formatting is cut (returns ""), std::string::_M_replace is wrapped by the runtime (see DESIGN 1.2/1.3)
-IR2C_BASE = ["--emptystr", "_ZNSt7__cxx119to_string", "--emptystr", "_ZStpl", "--keep-in", "_ZN10OP2Utility5XFile13PathsAreEqual",
+IR2C_BASE = ["--emptystr", "_ZNSt7__cxx119to_string", "--emptystr", "_ZStpl", "--emptystr", "_ZN10OP2Utility13StringUtility10StringFrom", "--keep-in", "_ZN10OP2Utility5XFile13PathsAreEqual",
              "--rename", "_ZNSt7__cxx1112basic_stringIcSt11char_traitsIcESaIcEE10_M_replaceEmmPKcm=__vf_real_M_replace"]
 RTGLOBALS = ["_ZTISt9exception", "_ZTISt13runtime_error", "_ZTISt11logic_error", "_ZTISt12length_error", "_ZTISt9bad_alloc",
              "_ZTISt12out_of_range", "_ZTISt16invalid_argument", "_ZTISt20bad_array_new_length"]
